@@ -1078,7 +1078,7 @@ def generate(unit, template_path, canary=False, extra_fns=(), drop_hints=()):
                                    + ("; body OUTSIDE the Verus subset: kept opaque, result arbitrary)" if opaque else ")"), header + " {"], 0))
             extra.append(("fn", {"file": rel, "impl": header, "name": name, "props": list(props), "ret": None, "clauses": [], "loops": [],
                                  "rewrites": [], "inserts": [], "sigs": [], "attrs": ["#[verifier::external_body]"] if opaque else [], "tline": 0, "as": None, "novis": False,
-                                 "external_body": bool(opaque), "arm": None}))
+                                 "external_body": bool(opaque), "arm": None, "auto": True}))
             extra.append(("text", ["}"], 0))
         # place before the closing `} // verus!` of the template
         for bi in range(len(blocks) - 1, -1, -1):
@@ -1249,6 +1249,8 @@ def generate(unit, template_path, canary=False, extra_fns=(), drop_hints=()):
                     sig = arm_sig
                     body = src.text[bo:bc + 1]
             where = f"{spec['file']}:{line_of(src.text, s0)}::{spec['name']}"
+            _bm0 = mask_rust(body)
+            loopform = [re.match(r"\w+", _bm0[k0:]).group(0) for k0 in find_loops(_bm0)]     # loop keywords of the REAL text, in order
             annotated = bool(spec["inserts"] or spec.get("closures") or any(c["kind"] != "abstract" for c in spec["loops"])
                              or any(any(t in r[0] for t in ("R10", "R11")) for r in spec.get("rewrites_re", [])))
             if (spec["as"] or spec["name"]) in drop_hints:
@@ -1261,6 +1263,21 @@ def generate(unit, template_path, canary=False, extra_fns=(), drop_hints=()):
                 spec["rewrites_re"] = [r for r in spec.get("rewrites_re", []) if not any(t in r[0] for t in ("R10", "R11"))]
                 g.rewrites.append({"rule": "R10", "where": where, "before": "every proof annotation of the function", "after": "(dropped: the annotations do not compile against the current body)", "missed": True})
             body_hash = hashlib.sha256((sig + body).encode()).hexdigest()[:16]
+            if spec.get("auto"):
+                # R20 (auto-included helpers only): module qualifiers of paths are dropped (`crate::typechecker::type_scheme::TypeScheme`,
+                # `typed_ast::Expression` -> `TypeScheme`, `Expression`): a unit is ONE flat file that declares the types it knows by
+                # their bare names. A name the unit does not declare still fails to compile (=> undecided).
+                def _flat(t):
+                    m_ = mask_rust(t)
+                    out_, last_ = [], 0
+                    for mm_ in re.finditer(r"\b(?:crate::)?(?:[a-z_][a-z0-9_]*::)+(?=[A-Z])", m_):
+                        out_.append(t[last_:mm_.start()]); last_ = mm_.end()
+                    out_.append(t[last_:])
+                    return "".join(out_)
+                nsig, nbody = _flat(sig), _flat(body)
+                if (nsig, nbody) != (sig, body):
+                    g.rewrites.append({"rule": "R20", "where": where, "before": "module-qualified paths", "after": "bare names"})
+                    sig, body = nsig, nbody
             if spec.get("external_body"):
                 body = "{ unimplemented!() }"
             # --- signature
@@ -1644,7 +1661,8 @@ def generate(unit, template_path, canary=False, extra_fns=(), drop_hints=()):
                 "props": spec["props"], "gen_start": fstart, "gen_end": len(g.lines),
                 "clauses": clause_ids, "hash": body_hash,
                 "n_asserts": sum(1 for r in g.rewrites if r["rule"] == "R4" and r["where"] == where),
-                "opaque": bool(spec.get("external_body")), "annotated": annotated,
+                "opaque": bool(spec.get("external_body")), "annotated": annotated, "loopform": loopform,
+                "loop_annotated": any(c["kind"] != "abstract" for c in spec["loops"]) or any(a in ("loop-start", "loop-end") or "@loop" in b for (a, b, _c) in spec["inserts"]),
             })
     return g
 
